@@ -17,7 +17,8 @@ RULE = ("decision = (2^7 switch settings, exposed prefix in {exposed_, x_, ''}, 
         "values), object shape (has name / has twin / both / neither / own hooks / partial hooks / restricted view / "
         "Service instance / class object), operation (read, write, delete, call-by-name)); quick: all 384 (switches, "
         "prefix) pairs x a seeded sample of the rest; thorough: the full product. isolation: seeded histories (<= 12 steps) of "
-        "open/close of default / public / custom-prefix / all-attrs / classic connections. distinct = the decision tuple / "
+        "open/close of default / public / custom-prefix / all-attrs / classic connections, a third of them handing ONE dict object, "
+        "edited in place, to every connection, a third probing while the module-level defaults are edited. distinct = the decision tuple / "
         "the history; non-trivial = every decision (each is a separate policy evaluation)")
 ASSUMPTIONS = ["reference policy: lib/rv/models.py (written from the statement); when it says 'access n' the expected outcome is "
                "what the same operation does on a twin object",
